@@ -38,7 +38,10 @@ def gen_headers(rnd, n, avoid_framing=True):
     return out
 
 
-def chunk_encode(rnd, body, maxchunks=50, bigchunk=False):
+def chunk_encode(rnd, body, maxchunks=50, bigchunk=False, cuts=None):
+    """cuts (list) receives payload-relative offsets of the delicate places:
+    after each chunk-size line, and before / inside / after each chunk's
+    trailing CRLF."""
     out = bytearray()
     pos = 0
     n = len(body)
@@ -60,7 +63,13 @@ def chunk_encode(rnd, body, maxchunks=50, bigchunk=False):
             ext = ';' + ''.join(rnd.choice('abcxyz') for _ in range(rnd.randint(1, 20)))
             if rnd.random() < 0.5:
                 ext += '=' + ''.join(rnd.choice('abc123') for _ in range(rnd.randint(1, 20)))
-        out += (hx + ext).encode() + b'\r\n' + body[pos:pos + c] + b'\r\n'
+        out += (hx + ext).encode() + b'\r\n'
+        if cuts is not None and len(cuts) < 40:
+            cuts.append(len(out))
+        out += body[pos:pos + c]
+        if cuts is not None and len(cuts) < 40:
+            cuts += [len(out), len(out) + 1, len(out) + 2]
+        out += b'\r\n'
         pos += c
         nch += 1
     last = '0' * rnd.randint(1, 3)
@@ -118,6 +127,7 @@ def gen_wellformed(rnd, tier):
                            if rnd.random() < 0.2 else rnd.randint(1, 9000)])
     body = rbytes(rnd, blen)
     fr = []
+    pcuts = []
     payload = b''
     if framing == 'clen' or (bodiless and rnd.random() < 0.5):
         cl = str(blen)
@@ -128,7 +138,7 @@ def gen_wellformed(rnd, tier):
     elif framing == 'chunked':
         te = rnd.choice(['chunked', 'chunked', 'gzip, chunked'])
         fr.append((('Transfer-Encoding: ' + te).encode(), 'Transfer-Encoding', te))
-        payload = chunk_encode(rnd, body, bigchunk=big)
+        payload = chunk_encode(rnd, body, bigchunk=big, cuts=pcuts)
     else:
         payload = body
     # place framing header at a random position
@@ -158,6 +168,8 @@ def gen_wellformed(rnd, tier):
         'method': method, 'path': path, 'rhdrs': rhdrs, 'rbody': rbody,
         'framing': 'none' if bodiless else framing, 'ninterim': nint,
         'interim_len': len(interim), 'final_len': len(final),
+        'cuts': sorted(set([len(interim), len(interim) + len(final)] +
+                           [len(interim) + len(final) + x for x in pcuts])),
     }
 
 
@@ -276,3 +288,23 @@ def mutate(rnd, c):
 
 def crc(b):
     return '%08x' % (zlib.crc32(b) & 0xffffffff)
+
+
+def explicit_chunks(rnd, c, total=None):
+    """Arrival chunk sizes for segmentation mode 3: cut at a few of the
+    delicate offsets the generator knows about (+-1), so that e.g. the read
+    boundary falls between the CR and LF that end a chunk."""
+    total = len(c['resp']) if total is None else total
+    cand = [x for x in c.get('cuts', []) if 0 < x < total]
+    pts = set()
+    for _ in range(rnd.randint(1, 4)):
+        if cand and rnd.random() < 0.8:
+            pts.add(max(1, min(total, rnd.choice(cand) + rnd.choice([0, 0, 0, -1, 1]))))
+        elif total > 0:
+            pts.add(rnd.randint(1, total))
+    chunks, prev = [], 0
+    for x in sorted(pts):
+        if x > prev:
+            chunks.append(x - prev)
+            prev = x
+    return chunks or [1]
